@@ -21,7 +21,7 @@ namespace S3V.XmlSpec
 open S3V S3V.Xml
 
 /-- the string a run of character-data events denotes; `none` if the run contains an element tag, an
-unresolvable reference, bytes that are not UTF-8 or a text piece with `]]>` -/
+unresolvable reference, bytes that are not UTF-8, a text piece with `]]>` or a PI with an illegal target -/
 def charsMeaning : List QEv → Option Bytes
   | [] => some []
   | .text raw :: r =>
@@ -33,7 +33,7 @@ def charsMeaning : List QEv → Option Bytes
     else none
   | .cdata c :: r => if utf8Valid c then (charsMeaning r).map (normEol c ++ ·) else none
   | .comment :: r => charsMeaning r
-  | .pi :: r => charsMeaning r
+  | .pi c :: r => if piTargetOk c then charsMeaning r else none   -- [17] PITarget: a name, not `xml`
   | _ => none
 
 /-- how s3s reads the content of a string element `<name …>run</name>`: `String::deserialize_content` followed by
